@@ -45,8 +45,8 @@ LEVEL_TEXT = ("The real request path (body reader under Content-Length and chunk
               "inside the bound each request is answered 2xx or 4xx with exactly one start_response, no traceback and no "
               "escaping exception, and every delivered field equals the data of a delimiter-terminated part of the sent "
               "text as found by the harness's own scanner. Bounded: skeletons, sites and handler kinds are enumerated.")
-LEVEL_NOTE = ("Trusted: z3, CrossHair's bytes/str/regex/codec models (+vf/chmodels, + the correction of its regex model "
-              "for optional groups in vf/stubs_c12, compared with CPython's re under the tracer at every run), CPython "
+LEVEL_NOTE = ("Trusted: z3, CrossHair's bytes/str/regex/codec models (+vf/chmodels, + two corrections of its regex model "
+              "in vf/stubs_c12, compared with CPython's re under the tracer at every run), CPython "
               "for concrete steps, the reference scanner, the stubs PyBytesIO, SymStream, PieceStream, ListForms, "
               "py_unquote, PyJson (each compared with the real object on concrete inputs at import). Every symbolic path "
               "that held is re-run on the plain interpreter with the inputs of its solver model and must show the same "
@@ -87,8 +87,9 @@ STUBS = [
     "py_unquote: urllib.parse.unquote inside request_pkg.helpers written out in Python (percent + UTF-8/replace decoder)",
     "PyJson: json.loads inside body_mixin as a recursive-descent reader for ASCII texts (json/model queries only; "
     "json/real and json/text queries run the real C scanner)",
-    "fix_relib_optional_group: correction of CrossHair's regex model (an optional group was matched without its "
-    "continuation, which lost the `name` option of every header line containing a symbolic character)",
+    "fix_relib: corrections of CrossHair's regex model (an optional group was matched without its continuation, which "
+    "lost the `name` option of every header line containing a symbolic character; `$` did not match before a final "
+    "newline)",
 ]
 ASSUMPTIONS = [
     "a WSGI server may return fewer bytes than asked from wsgi.input.read (PEP 3333): the windowing of the symbolic "
@@ -109,7 +110,7 @@ STATS = {}
 
 stubs.install_body_io()
 stubs_c12.install()
-stubs_c12.fix_relib_optional_group()
+stubs_c12.fix_relib()
 STATS["stub_comparisons_with_the_real_objects"] = stubs_c12.validate()
 stubs_c12.warm_symbolic_tables()
 
@@ -358,7 +359,7 @@ SITES = [
     ("name-val", b'name="', 6, 1, 1, "the field name"),
     ("filename-key", b"filename=", 0, 1, 1, "the first byte of the option key `filename`"),
     ("filename-val", b'filename="', 10, 1, 1, "the file name"),
-    ("filename-quoted", b'filename="', 9, 3, 2, "the quoted file name replaced by two bytes"),
+    ("filename-quoted", b'filename="', 9, 3, 1, "the quoted file name replaced by one byte"),
     ("ctype-colon", b"Content-Type:", 12, 1, 1, "the colon of the second header line"),
     ("ctype-value", b"Content-Type: ", 13, 4, 1, "the value of the second header line replaced by one byte"),
     ("line-break", b"\r\nContent-Type", 1, 1, 1, "the LF of the CRLF between the two header lines"),
@@ -600,7 +601,7 @@ HOLES_QUICK_CHUNKED = [("text", "colon", "forms", BOTH, 14), ("text", "after-del
 HOLES_THOROUGH = [
     ("text", "hname", "forms", BOTH, 470), ("file", "filename-key", "files", ["status-4xx", "status-2xx"], 365),
     ("text", "colon+1", "forms", BOTH, 230), ("text", "name-key", "forms", BOTH, 190), ("text", "name-eq", "forms", BOTH, 180),
-    ("ctype", "filename-quoted", "files", BOTH, 130), ("file", "filename-quoted", "files", BOTH, 90),
+    ("ctype", "filename-quoted", "files", BOTH, 35), ("file", "filename-quoted", "files", BOTH, 20),
     ("ctype", "line-break", "files", BOTH, 70), ("text", "preamble", "forms", E4, 46), ("file", "name-val", "files", BOTH, 40),
     ("text", "name-val", "forms", BOTH, 25), ("text", "hvalue-2", "forms", E4, 16),
 ]
